@@ -69,6 +69,28 @@ def build_harness(features=(), target="target"):
     return os.path.join(HARNESS, target, "debug", "gaharness")
 
 
+def build_harness_asan():
+    """Observation amplifier (thorough tiers): the same harness built with AddressSanitizer (nightly toolchain).
+    Returns None if that build is not possible here; it never changes a verdict by its absence."""
+    lock = open(os.path.join(WORK, "cargo.lock"), "w")
+    fcntl.flock(lock, fcntl.LOCK_EX)
+    try:
+        target = "target-asan" + ("-alt" if ALT else "")
+        cmd = ["cargo", "+nightly", "build", "--offline", "--target", "x86_64-unknown-linux-gnu", "--target-dir", target]
+        if ALT:
+            cmd += ["--config", 'paths=["%s"]' % REPO]
+        t0 = time.time()
+        p = sh(cmd, cwd=HARNESS, timeout=2400, env={"RUSTFLAGS": "-Zsanitizer=address --cfg generic_array_verif --check-cfg cfg(generic_array_verif)"})
+        if p.returncode != 0:
+            log("[build] ASan harness unavailable: " + p.stderr[-300:].replace("\n", " "))
+            return None
+        log("[build] ASan harness ok in %.1fs" % (time.time() - t0))
+        return os.path.join(HARNESS, target, "x86_64-unknown-linux-gnu", "debug", "gaharness")
+    finally:
+        fcntl.flock(lock, fcntl.LOCK_UN)
+        lock.close()
+
+
 # ---------------------------------------------------------------------------------------------
 # TLC
 # ---------------------------------------------------------------------------------------------
@@ -492,6 +514,32 @@ class Check:
         for r in rej:
             scn = by_name.get(r["case"], {})
             self.report(scn, r)
+
+    def asan_pass(self, name, sub="script"):
+        """Re-executes the scenarios of an earlier conform() stage on the AddressSanitizer build.  No new oracle:
+        only a process death (an out-of-bounds or use-after-free access the value-level oracle cannot see)
+        is reported, attributed to the case it happened in."""
+        binary = build_harness_asan()
+        if binary is None:
+            self.assumptions.append("ASan amplifier unavailable in this environment (nightly -Zsanitizer build failed); verdicts unaffected")
+            return
+        scn_path = os.path.join(self.dir, name + ".scn.ndjson")
+        scns = [json.loads(l) for l in open(scn_path)]
+        trace_path = os.path.join(self.dir, name + ".asan.trace.ndjson")
+        t0 = time.time()
+        crashed = run_driver(binary, sub, scn_path, trace_path, len(scns), env={"ASAN_OPTIONS": "detect_leaks=0:abort_on_error=1:halt_on_error=1"}, timeout=2400)
+        log("[asan] %s: %d cases re-executed under AddressSanitizer in %.1fs, %d died" % (name, len(scns), time.time() - t0, len(crashed)))
+        self.cov["asan_cases"] = self.cov.get("asan_cases", 0) + len(scns)
+        cases = split_cases(trace_path)
+        for i in crashed:
+            lines = cases[i][1] if i < len(cases) else []
+            last = lines[-1].strip() if lines else ""
+            self._sub, self._spec = sub, "GATrace"
+            self.report(scns[i], {"line": len(lines), "event": last, "reason": "the process died under AddressSanitizer while executing this case", "trace": lines})
+        try:
+            os.remove(trace_path)
+        except OSError:
+            pass
 
     def report(self, scn, r):
         f = match_finding(self.prop, scn, r, self.findings)
